@@ -1,5 +1,6 @@
 """Params plug-in for C19 (WAL archive / cleaner): file-name formats, the id filter and the
-abort-on-failure branch are read from the Rust text.  See tools/gen_params.py."""
+abort-on-failure branch and the shape of the batch archive (one archive_log per eligible directory entry, no cap) are
+read from the Rust text.  See tools/gen_params.py."""
 import re
 from gen_params import read, Missing
 
@@ -45,6 +46,22 @@ def gen(out):
         raise Missing(f"{arch}: scan pattern {spre!r}/{ssuf!r} differs from archive_log's file name {pre!r}/{suf!r}")
     if cpre is not None and (cpre, int(cwidth), csuf) != (pre, width, suf):
         raise Missing(f"{arch}: the scans compare the file name with {cpre!r}{{:0{cwidth}}}{csuf!r}, archive_log opens {pre!r}{{:0{width}}}{suf!r}")
+    # shape of the batch archive (the cleaner reads "no Err among the results" as "every eligible file is archived"):
+    # the results vector starts empty, the ONLY statement of the scan's innermost branch pushes archive_log(id) for
+    # that directory entry, and the vector is returned as it is - no collect-then-cut (truncate / take / limit / skip /
+    # drain / retain / chunks / a constant bounding the pass) anywhere in archive_logs_up_to
+    fm = re.search(r'pub fn archive_logs_up_to\(\s*&self,\s*keep_from_log_id: u64,?\s*\) -> Vec<Result<PathBuf, std::io::Error>> \{(.*?)\n    \}\n', a, re.S)
+    if not fm:
+        raise Missing(f"{arch}: archive_logs_up_to(&self, keep_from_log_id: u64) -> Vec<Result<PathBuf, io::Error>>")
+    fbody = re.sub(r'//[^\n]*', '', fm.group(1))
+    m2 = scan.search(fbody)
+    every = bool(m2) and bool(re.match(r'\s*results\.push\(self\.archive_log\(id\)\);\s*\}', fbody[m2.end():])) \
+        and len(re.findall(r'\bresults\b\s*(?:=[^=]|\.(?!iter\(\)\.filter|push\(self\.archive_log\(id\)\)))', fbody)) == 1 \
+        and bool(re.search(r'let mut results = Vec::new\(\);', fbody)) \
+        and bool(re.search(r'\n\s*results\s*$', fbody)) \
+        and len(re.findall(r'self\.archive_log\(', fbody)) == 1 \
+        and not re.search(r'\.(truncate|take|take_while|skip|skip_while|step_by|drain|retain|split_off|chunks|pop|remove|swap_remove|clear|nth|first|last|resize)\b|\bbreak\b|\breturn\b|\[\s*\.\.', fbody)
+    out.append(f"Definition walarch_archives_every_eligible : bool := {'true' if every else 'false'}.")
     out.append(f"Definition walarch_scan_canonical_only : bool := {'true' if cpre is not None else 'false'}.")
     out.append(f"Definition walarch_log_prefix : list N := {coq_bytes(pre)}.")
     out.append(f"Definition walarch_log_suffix : list N := {coq_bytes(suf)}.")
